@@ -21,9 +21,13 @@ TRUSTED = [
     "object per Register call; processes with IsTerminated constantly false (abyss, shared stream) are modelled (KSticky) but outside the theorems",
     "hand-written sequential models coq/C12/RegModel.v (registry with cache) and coq/C12/AddrModel.v (Derivation/Equal/URL over byte strings; "
     "URL.String only for never-escaped characters), tied by differential runs through the public prc API (harness/cmd/c12reg, c12addr)",
+    "hand-written model coq/C12/EqModel.v of reference objects with their cache field (constructors, Register with aliases, Unregister, "
+    "GetProcess with a resolver, views, Equal over all ordered pairs), tied by differential runs on real *prc.ProcessId objects put into "
+    "every combination of cache states through the public prc API (harness/cmd/c12equal); the cache states are inferred from the "
+    "recorded lookup results (the field itself is not read)",
     "Go harnesses, generators and monitors (harness/cmd/c12*, harness/t2/c12reg, harness/vh), bin/check, lib/vlib.py; Go runtime",
 ]
-HARNESSES = [{"pkg": "c12reg", "sub": "reg"}, {"pkg": "c12addr", "sub": "addr"}]
+HARNESSES = [{"pkg": "c12reg", "sub": "reg"}, {"pkg": "c12addr", "sub": "addr"}, {"pkg": "c12equal", "sub": "equal"}]
 MANIFEST = {
     "text": "Coq theorems over every reachable state of an interleaving machine of the registry (unbounded Register/Unregister/GetProcess "
             "threads, shared and private reference objects with their caches, address reuse): registering a taken address is refused in one "
@@ -33,14 +37,19 @@ MANIFEST = {
             "(C12_lookup_window), while for Unregister as shipped the same statement is refuted by a 19-step schedule; in both variants a "
             "lookup started after the Unregister of p returned never yields p, the cache only holds processes registered under that address, "
             "and lookups yield dead letters or a process registered under that address. Sequentially the registry with caches refines a "
-            "plain map for all operation sequences. Derivation is injective for API names (jointly with the parent), Equal is equality of "
-            "node and local address. On every run: the current source is instrumented (map and atomics become scheduler steps) and hundreds "
+            "plain map for all operation sequences. Derivation is injective for API names (jointly with the parent), Equal is an "
+            "equivalence that coincides with equality of node and local address, and every address-level operation on references (Equal, "
+            "getters, URL, Clone, Derivation, copies) is unaffected by any sequence of registry operations, i.e. by the hidden cache state "
+            "of either reference (C12_address_ops_ignore_cache_state). On every run: the current source is instrumented (map and atomics become scheduler steps) and hundreds "
             "of schedules are replayed step by step in Coq; thousands of sequential op sequences and address cases are compared with the "
-            "models in Coq; a stress harness runs the real code with goroutines; Go monitors restate the clauses on recorded histories.",
+            "models in Coq; real references are driven through every combination of cache states (never resolved, own process, a process "
+            "shared with a reference of another address via an alias registration or a per-node resolver, stale) with Equal taken over "
+            "every ordered pair before and after every transition; a stress harness runs the real code with goroutines; Go monitors restate the clauses on recorded histories.",
     "note": "Needs fixes/C12-unregister-terminate-before-delete.patch: on the unpatched tree bin/check C12 reports VIOLATION "
             "(regconc:GetProcess:stale-after-reregistration, also reproduced on the real code by c12stress). Trusted: Coq kernel+vm_compute; "
             "hand-written models checked per executed step / per case only on the explored schedules and inputs; xsync contract; Process "
-            "contract; fresh process object per Register. Remote resolvers (PhysicalAddressResolver) are out of scope (C11).",
+            "contract; fresh process object per Register. Remote resolvers (PhysicalAddressResolver) appear only as pure functions of the id "
+            "(per node / per id / one gateway process) in the Equal-vs-cache model; what a resolver does over the network is C11.",
     "technique": "Coq invariant proof over an unbounded-thread interleaving machine + per-step schedule replay of the instrumented source; "
                  "refinement proof of the sequential registry + differential runs; string-algebra proofs + differential runs; stress + monitors",
 }
@@ -81,7 +90,7 @@ def check(ctx):
     vlib.run_harness(ctx, vlib.go_build(ctx, "c12stress"), "regstress", coq=False)
     if ctx.tier == "thorough":
         vlib.coqchk(ctx, ["MV.C12.Properties"])
-    return vlib.finish(ctx, "make -C coq && coqc C12/Properties.v (Print Assumptions per theorem); go build harness/cmd/{c12reg,c12addr,c12stress} "
+    return vlib.finish(ctx, "make -C coq && coqc C12/Properties.v (Print Assumptions per theorem); go build harness/cmd/{c12reg,c12addr,c12equal,c12stress} "
                             "against the /repo working tree; instrument + build the current registry sources (t2_build); coqc <generated shards> (vm_compute)",
                        "DESIGN.md §6 C12", search=vlib.default_search)
 
@@ -96,4 +105,4 @@ def replay(ctx, path):
         if err.strip():
             print(err.strip())
         return rc
-    return vlib.standard_replay(ctx, {"reg": "c12reg", "addr": "c12addr", "regstress": "c12stress"}, path)
+    return vlib.standard_replay(ctx, {"reg": "c12reg", "addr": "c12addr", "equal": "c12equal", "regstress": "c12stress"}, path)
